@@ -72,6 +72,12 @@ def handmade():
                                  "fields": {"F1": "!value ab.Var", "F2": "!value abc.Var", "f3": "!value a.Var"},
                                  "tags": ["t%d" % (i % 2)]} for i in range(6)},
         "decorators": [{"tag": "t0", "decorator": "p.Decorate"}, {"tag": "t1", "decorator": "abc.Decorate"}]}], "args": None})
+    # packages met for the first time inside one mapping (fields of one service, no function or constructor has aliased them before)
+    sc.append({"name": "fresh-packages-in-fields", "docs": [{
+        "meta": {"imports": {"a": "probe.test/p", "ab": "probe.test/pq", "abc": "probe.test/x/p", "p": "probe.test/fx", "y": "probe.test/fy"}},
+        "services": {"s0": {"constructor": "NewA", "fields": {"F1": "!value ab.Var", "F2": "!value abc.Var", "f3": "!value a.Var"},
+                            "calls": [["SetX", ["!value p.Var", "!value y.Var"]]]},
+                     "s1": {"value": "y.Var", "fields": {"F2": "!value p.Var", "F1": "!value abc.Var"}}}}], "args": None})
     # a service re-opened in a later file: tags, calls and fields from both files; parameters and functions overridden
     sc.append({"name": "reopened-across-files", "docs": [
         {"meta": {"imports": {"fx": "probe.test/fx", "fy": "probe.test/fy"}, "functions": {"g1": "fx.Fn", "g2": "fy.Fn"}},
